@@ -158,6 +158,65 @@ func vRandomBytes(r *rand.Rand) string {
 	return string(b)
 }
 
+// small-alphabet soups placed in one syntactic context each, so that short token combinations
+// (e.g. "1+(x", "(%", "<,", "[]") are hit with high probability in every context
+var vSoupAlpha = []string{"1", "2", "+", "(", ")", "x", "X", "*", "[", "]", " ", "%", "<", ">", ",", "#", "n", ".", "?", "!", ":", "0"}
+var vSoupAlpha2 = []string{"1", "[", "]", "<", ">", ",", "x", "X", " ", ":", "?", "|", "_", ".", "#", "=", "=>", "<=>", "a", "int32"}
+
+func vContextSoup(r *rand.Rand, tl2 bool) string {
+	alpha := vSoupAlpha
+	if tl2 {
+		alpha = vSoupAlpha2
+	}
+	k := 1 + r.Intn(7)
+	if r.Intn(2) == 0 {
+		alpha = alpha[:10]
+	}
+	var sb strings.Builder
+	for i := 0; i < k; i++ {
+		sb.WriteString(alpha[r.Intn(len(alpha))])
+	}
+	soup := sb.String()
+	if tl2 {
+		switch r.Intn(7) {
+		case 0:
+			return "a = x:" + soup + ";"
+		case 1:
+			return "a = x:v<" + soup + ">;"
+		case 2:
+			return "a<" + soup + "> = x:int32;"
+		case 3:
+			return "a = " + soup + ";"
+		case 4:
+			return "f#00000001 x:int32 => " + soup + ";"
+		case 5:
+			return "a <=> " + soup + ";"
+		default:
+			return "a = | b " + soup + " | c;"
+		}
+	}
+	switch r.Intn(9) {
+	case 0:
+		return "a x:(foo " + soup + ") = A;"
+	case 1:
+		return "a n:# x:" + soup + "*[int] = A;"
+	case 2:
+		return "a x:" + soup + " = A;"
+	case 3:
+		return "a n:# x:n*[" + soup + "] = A;"
+	case 4:
+		return "a {" + soup + "} = A;"
+	case 5:
+		return "a n:# x:n." + soup + " = A;"
+	case 6:
+		return "---functions---\nf x:int = " + soup + ";"
+	case 7:
+		return "a x:foo<" + soup + "> = A;"
+	default:
+		return "a = A " + soup + ";"
+	}
+}
+
 func vPathological(r *rand.Rand, tl2 bool) string {
 	n := 1 + r.Intn(3000)
 	switch r.Intn(6) {
@@ -349,9 +408,12 @@ func vParserTotality(t *testing.T, tl2 bool) {
 				s = vMutate(r, s)
 			}
 			st.counters["in_generated"]++
-		case kind < 17:
+		case kind < 15:
 			s = vTokenSoup(r)
 			st.counters["in_token_soup"]++
+		case kind < 17:
+			s = vContextSoup(r, tl2)
+			st.counters["in_context_soup"]++
 		case kind < 19:
 			s = vRandomBytes(r)
 			st.counters["in_random_bytes"]++
@@ -1412,9 +1474,6 @@ func vGen2Def(r *rand.Rand, isRet bool) g2Def {
 				v.alias = vGen2Type(r, 1)
 			default:
 				v.fields = vGen2Fields(r, 3, long)
-				for j := range v.fields {
-					v.fields[j].comment = ""
-				}
 			}
 			if r.Intn(6) == 0 {
 				v.comment = "// tlgen:tl1name:\"n" + strconv.Itoa(i) + "\""
